@@ -277,6 +277,42 @@ def r2c_iteration_tables(rep, facts, rid='C16/R2c'):
                               f'(placeholders left by mutable indexing must not count)', facts.loc(b))
 
 
+def r2d_lookup_tables(rep, facts, rid='C16/R2d'):
+    R = rep.rule(rid, 'lookups agree with iteration: on a table / inline table holding a real entry `a` and a placeholder left by mutable indexing under `ghost`, every '
+                 'read-only lookup (get, get_key_value, contains_key, indexing an Item with a string) finds `a` and does not find `ghost` (evaluated)', floor=8)
+    from .den import Interp, Evaluator, Unanalysable, EvalPanic
+    NONE_ITEM = ('ctor', 'toml_edit::item::Item::None')
+    key = lambda n: ('struct', 'toml_edit::key::Key', {'key': n, 'repr': ('opaque',), 'leaf_decor': ('opaque',), 'dotted_decor': ('opaque',)})
+    val = ('ctor', 'toml_edit::item::Item::Value', (('ctor', 'toml_edit::value::Value::Integer', (('elem', 0),)),))
+    store = ((key('a'), val), (key('ghost'), NONE_ITEM))
+    tab = ('struct', 'toml_edit::table::Table', {'items': store, 'dotted': False, 'implicit': False})
+    inl = ('struct', 'toml_edit::inline_table::InlineTable', {'items': store, 'dotted': False, 'implicit': False})
+    found = lambda r: r is True or (isinstance(r, tuple) and r[:2] == ('ctor', 'core::option::Option::Some'))
+    absent = lambda r: r is False or r == ('ctor', 'core::option::Option::None')
+    cases = []
+    for ty, model in (('toml_edit::table::Table', tab), ('toml_edit::inline_table::InlineTable', inl)):
+        for m in ('get', 'get_key_value', 'contains_key'):
+            cases.append((f'{ty}::{m}', lambda q, model=model: [model, q], f'{last_seg(ty)}::{m}'))
+    cases.append(('<str as toml_edit::index::Index>::index', lambda q: [q, ('ctor', 'toml_edit::item::Item::Table', (tab,))], 'Item[str] over a table'))
+    cases.append(('<str as toml_edit::index::Index>::index', lambda q: [q, ('ctor', 'toml_edit::item::Item::Value', (('ctor', 'toml_edit::value::Value::InlineTable', (inl,)),))], 'Item[str] over an inline table'))
+    for d, mk, label in cases:
+        if not facts.has_body(d):
+            rep.incomplete(R, label, f'`{d}` not found')
+            continue
+        b = facts.body(d)
+        try:
+            ra = Interp(Evaluator(facts)).apply_fn(b, mk('a'))
+            rg_ = Interp(Evaluator(facts)).apply_fn(b, mk('ghost'))
+            rm = Interp(Evaluator(facts)).apply_fn(b, mk('missing'))
+        except (Unanalysable, EvalPanic) as e:
+            rep.incomplete(R, label, f'cannot evaluate `{d}`: {e}', facts.loc(b))
+            continue
+        ok = found(ra) and absent(rg_) and absent(rm)
+        rep.check(R, label, ok, 'finds `a`, not the placeholder, not a missing key',
+                  f'`{d}` ({label}): real entry {"found" if found(ra) else "NOT found"}, placeholder {"hidden" if absent(rg_) else "VISIBLE"}, missing key '
+                  f'{"absent" if absent(rm) else "found"} — a key that iteration, len() and printing do not show can be looked up (or the reverse)', facts.loc(b))
+
+
 def r5b_iterator_wrappers(rep, facts):
     R = rep.rule('C16/R5b', 'the iterator types of toml::Map (Iter, IterMut, IntoIter, Keys, Values) forward every method of Iterator / DoubleEndedIterator / '
                  'ExactSizeIterator to the method of the same name of the wrapped iterator (iteration from the back really comes from the back)', floor=15)
@@ -340,6 +376,7 @@ def rules(rep, facts):
         order_ops(rep, R1, facts, floor_shift=6)
         r2_placeholders(rep, facts)
         r2c_iteration_tables(rep, facts)
+        r2d_lookup_tables(rep, facts)
         r4_key_identity(rep, facts)
         r6_sorting(rep, facts)
         r7_bulk_insert(rep, facts)
